@@ -58,9 +58,9 @@ def gen_tree(tape, depth, counter):
     return node
 
 
-def gen_events(tape):
+def gen_events(tape, big=False):
     evs = []
-    for i in range(1 + tape.draw("program", 8, "n-events")):
+    for i in range(1 + tape.draw("program", 16 if big else 8, "n-events")):
         ev = {"test_id": tape.choice("program", (None, "x", "y"), "id"),
               "test_status": tape.choice("program", (None, "inprogress", "success", "fail", "uxsuccess", "skip"), "status")}
         tk = tape.draw("program", 4, "tags-kind")
@@ -183,7 +183,7 @@ def run_one(tape, opts):
     out = Outcome()
     counter = [0]
     tree = gen_tree(tape, 0, counter)
-    events = gen_events(tape)
+    events = gen_events(tape, big=opts.get("tier") == "thorough")
     clock = vclock.VClock()
     vclock.install(clock)
     world = World()
